@@ -139,6 +139,16 @@ func (c *Coordinator) handleError(ctx context.Context, err error, tssProcesses [
 		return c.watchExecution(ctx, tssProcesses[0], peer.ID(""))
 	})
 	sessionID := tssProcesses[0].SessionID()
+	// a second attempt that succeeds ends the session, like the first one in Execute
+	attempt := func(f func(ctx context.Context) error) func(ctx context.Context) error {
+		return func(ctx context.Context) error {
+			err := f(ctx)
+			if err == nil {
+				cancel()
+			}
+			return err
+		}
+	}
 
 	// errors returned by the process pools are aggregated (joined), so the cause has to be
 	// looked up inside the returned error instead of switching on its outermost type
@@ -152,12 +162,12 @@ func (c *Coordinator) handleError(ctx context.Context, err error, tssProcesses [
 			log.Warn().Str("SessionID", sessionID).Msgf("Tss process failed with error %+v", coordinatorErr)
 
 			excludedPeers := []peer.ID{coordinatorErr.Peer}
-			rp.Go(func(ctx context.Context) error { return c.retry(ctx, tssProcesses, resultChn, excludedPeers) })
+			rp.Go(attempt(func(ctx context.Context) error { return c.retry(ctx, tssProcesses, resultChn, excludedPeers) }))
 		}
 	case errors.As(err, &communicationErr):
 		{
 			log.Err(communicationErr).Str("SessionID", sessionID).Msgf("Tss process failed with error %+v", communicationErr)
-			rp.Go(func(ctx context.Context) error { return c.retry(ctx, tssProcesses, resultChn, []peer.ID{}) })
+			rp.Go(attempt(func(ctx context.Context) error { return c.retry(ctx, tssProcesses, resultChn, []peer.ID{}) }))
 		}
 	case errors.As(err, &tssErr):
 		{
@@ -168,14 +178,14 @@ func (c *Coordinator) handleError(ctx context.Context, err error, tssProcesses [
 				_ = rp.Wait()
 				return err
 			}
-			rp.Go(func(ctx context.Context) error { return c.retry(ctx, tssProcesses, resultChn, excludedPeers) })
+			rp.Go(attempt(func(ctx context.Context) error { return c.retry(ctx, tssProcesses, resultChn, excludedPeers) }))
 		}
 	case errors.As(err, &subsetErr):
 		{
 			// wait for start message if existing singing process fails
-			rp.Go(func(ctx context.Context) error {
+			rp.Go(attempt(func(ctx context.Context) error {
 				return c.waitForStart(ctx, tssProcesses, resultChn, peer.ID(""), c.TssTimeout)
-			})
+			}))
 		}
 	default:
 		{
